@@ -25,6 +25,8 @@ type C14Case struct {
 	Kind    string                  `json:"kind"`
 	OCIRes  *rspec.LinuxResources   `json:"oci_res,omitempty"`
 	NRIRes  *api.LinuxResources     `json:"nri_res,omitempty"`
+	NRIRes2 *api.LinuxResources     `json:"nri_res2,omitempty"`
+	OCIRes2 *rspec.LinuxResources   `json:"oci_res2,omitempty"`
 	Mounts  []rspec.Mount           `json:"mounts,omitempty"`
 	Query   bool                    `json:"query,omitempty"`
 	Devices []rspec.LinuxDevice     `json:"devices,omitempty"`
@@ -43,7 +45,7 @@ type C14Case struct {
 }
 
 func genC14(t *rapid.T) C14Case {
-	kind := rapid.SampledFrom([]string{"res_oci", "res_oci", "res_nri", "res_nri", "copy", "copy", "mount", "device", "hook", "env", "ns", "opt", "opt", "marker", "maskops"}).Draw(t, "kind")
+	kind := rapid.SampledFrom([]string{"res_oci", "res_oci", "res_nri", "res_nri", "copy", "copy", "mount", "device", "hook", "env", "ns", "opt", "opt", "marker", "maskops", "conv_history", "conv_history"}).Draw(t, "kind")
 	c := C14Case{Kind: kind}
 	switch kind {
 	case "res_oci":
@@ -51,6 +53,26 @@ func genC14(t *rapid.T) C14Case {
 	case "res_nri", "copy":
 		c.NRIRes = gen.NRIResources().Draw(t, "res")
 		c.MutIdx = rapid.IntRange(0, 40).Draw(t, "mut")
+	case "conv_history":
+		// an earlier conversion whose RESULT the caller then modifies, followed by a second,
+		// unrelated conversion: results of different conversions must share no state
+		c.NRIRes = gen.NRIResources().Draw(t, "res1")
+		c.NRIRes2 = gen.NRIResources().Draw(t, "res2")
+		c.OCIRes = gen.OCIResources().Draw(t, "ores1")
+		c.OCIRes2 = gen.OCIResources().Draw(t, "ores2")
+		// sections left out are where a shared default could hide
+		if c.NRIRes != nil && rapid.Bool().Draw(t, "nomem1") {
+			c.NRIRes.Memory = nil
+		}
+		if c.NRIRes != nil && rapid.Bool().Draw(t, "nocpu1") {
+			c.NRIRes.Cpu = nil
+		}
+		if c.NRIRes2 != nil && rapid.Bool().Draw(t, "nomem2") {
+			c.NRIRes2.Memory = nil
+		}
+		if c.NRIRes2 != nil && rapid.Bool().Draw(t, "nocpu2") {
+			c.NRIRes2.Cpu = nil
+		}
 	case "mount":
 		c.Mounts = rapid.SliceOfN(gen.OCIMount(), 0, 4).Draw(t, "mounts")
 		c.Query = rapid.Bool().Draw(t, "query")
@@ -421,6 +443,41 @@ func mutateNRI(r *api.LinuxResources, idx int) bool {
 	return muts[idx%len(muts)]()
 }
 
+// scribbleOCI writes through every pointer, slice and map reachable from converted OCI resources.
+func scribbleOCI(o *rspec.LinuxResources) {
+	if o == nil {
+		return
+	}
+	i, u, b := int64(67108864), uint64(512), true
+	if o.Memory != nil {
+		o.Memory.Limit, o.Memory.Reservation, o.Memory.Swap, o.Memory.Kernel, o.Memory.KernelTCP = &i, &i, &i, &i, &i
+		o.Memory.Swappiness, o.Memory.DisableOOMKiller, o.Memory.UseHierarchy = &u, &b, &b
+	}
+	if o.CPU != nil {
+		o.CPU.Shares, o.CPU.Period, o.CPU.RealtimePeriod = &u, &u, &u
+		o.CPU.Quota, o.CPU.RealtimeRuntime = &i, &i
+		o.CPU.Cpus, o.CPU.Mems = "0-1", "0"
+	}
+	for k := range o.HugepageLimits {
+		o.HugepageLimits[k].Limit ^= 0xff
+	}
+	for k := range o.Unified {
+		o.Unified[k] += "~"
+	}
+	if o.Unified != nil {
+		o.Unified["scribble"] = "x"
+	}
+	if o.Pids != nil {
+		o.Pids.Limit ^= 0x55
+	}
+	for k := range o.Devices {
+		o.Devices[k].Access += "~"
+		if o.Devices[k].Major != nil {
+			*o.Devices[k].Major ^= 0x33
+		}
+	}
+}
+
 func runC14(c C14Case) ev.Outcome {
 	o := ev.Outcome{Classes: []string{"kind:" + c.Kind}}
 	switch c.Kind {
@@ -436,6 +493,30 @@ func runC14(c C14Case) ev.Outcome {
 			return ev.Failf("NRI->OCI->NRI resources differ:\n in: %s\nout: %s", a, b)
 		}
 		o.NonTrivial = hasZeroOrEmptyNRI(c.NRIRes)
+	case "conv_history":
+		// step 1: convert, then scribble over everything reachable from the result
+		o1 := c.NRIRes.ToOCI()
+		scribbleOCI(o1)
+		n1 := api.FromOCILinuxResources(c.OCIRes, nil)
+		for i := 0; i < 24; i++ {
+			mutateNRI(n1, i)
+		}
+		// step 2: unrelated conversions must be unaffected by step 1
+		want2 := canonNRI(c.NRIRes2, false, true)
+		back := api.FromOCILinuxResources(c.NRIRes2.ToOCI(), nil)
+		if got := canonNRI(back, false, true); got != want2 {
+			return ev.Failf("NRI->OCI->NRI after an earlier conversion whose result was modified:\n in: %s\nout: %s", want2, got)
+		}
+		wantO := canonOCI(c.OCIRes2)
+		backO := api.FromOCILinuxResources(c.OCIRes2, nil).ToOCI()
+		if got := canonOCI(backO); got != wantO {
+			return ev.Failf("OCI->NRI->OCI after an earlier conversion whose result was modified:\n in: %s\nout: %s", wantO, got)
+		}
+		// and the inputs of step 1 must not have been touched through the results
+		o.NonTrivial = c.NRIRes != nil && c.NRIRes2 != nil && (c.NRIRes.Memory == nil || c.NRIRes.Cpu == nil) && (c.NRIRes2.Memory == nil || c.NRIRes2.Cpu == nil)
+		if o.NonTrivial {
+			o.Classes = append(o.Classes, "conv_history:both_lack_a_section")
+		}
 	case "copy":
 		orig := c.NRIRes
 		snap := canonNRI(orig, true, false)
